@@ -37,6 +37,9 @@ func sessionWorld(r *Rng) (Config, bool) {
 
 // C04: one lineage, requests separated by landmark gaps, IdP admin operations in between.
 func genC04(r *Rng) *Plan {
+	if r.Chance(1, 10) {
+		return twinUpstreams(r, "c04")
+	}
 	cfg, groups := sessionWorld(r)
 	p := &Plan{Cfg: cfg, Users: stdUsers, Gen: "lineage"}
 	host := cfg.Routes[0].From
@@ -189,6 +192,9 @@ func genC05(r *Rng) *Plan {
 
 // C01: several upstreams, browsers and an attacker; minted cookies span the session-content product.
 func genC01(r *Rng) *Plan {
+	if r.Chance(1, 10) {
+		return twinUpstreams(r, "c01")
+	}
 	cfg := swarmConfig(r)
 	nUp := r.Range(1, 3)
 	cfg.Routes = nil
